@@ -32,13 +32,15 @@ pub fn alphabet() -> (Vec<Stmt>, Vec<Block>) {
         Stmt::Row(vec![p(name("a")), l(0), Entry::X, Entry::X]),
         Stmt::Let("a".into(), q()),
         Stmt::Let("Q".into(), lit(7)),
+        // a value the device may be showing for Q at that very moment: the variable must exist all the same
+        Stmt::Let("Q".into(), lit(1)),
         Stmt::Let("Q".into(), bin(BinOp::Add, q(), lit(1))),
         Stmt::Let("a".into(), bin(BinOp::Add, name("a"), q())),
         Stmt::Repeat(q(), vec![p(name("n")), l(0), Entry::X, Entry::X]),
         // resetRandom must leave the values read from the device alone
         Stmt::ResetRandom,
     ];
-    let blocks = vec![Block::Loop("i".into(), q()), Block::While(un(UnOp::Not, name("DONE"))), Block::While(bin(BinOp::Lt, q(), lit(2)))];
+    let blocks = vec![Block::Loop("i".into(), q()), Block::Loop("Q".into(), lit(2)), Block::While(un(UnOp::Not, name("DONE"))), Block::While(bin(BinOp::Lt, q(), lit(2)))];
     (atoms, blocks)
 }
 
